@@ -48,9 +48,52 @@ def spell(src, tokens):
     return out
 
 
+# FEEL grammar rules 28 / 29: the ranges of name start characters (beyond ASCII) and of the additional name part characters.
+# U+1680, U+180E and U+FEFF lie inside these ranges and are white space as well (DESIGN 9.7): left out.
+START_RANGES = [(0xC0, 0xD6), (0xD8, 0xF6), (0xF8, 0x2FF), (0x370, 0x37D), (0x37F, 0x1FFF), (0x200C, 0x200D), (0x2070, 0x218F),
+                (0x2C00, 0x2FEF), (0x3001, 0xD7FF), (0xF900, 0xFDCF), (0xFDF0, 0xFFFD), (0x10000, 0xEFFFF)]
+PART_RANGES = [(0x30, 0x39), (0xB7, 0xB7), (0x300, 0x36F), (0x203F, 0x2040)]
+BOTH_WS_AND_NAME = {0x1680, 0x180E, 0xFEFF}
+
+
+def range_char(src, ranges):
+    """a code point of one of the ranges: an end of the range, next to an end, a power-of-256 boundary inside it, or anywhere"""
+    lo, hi = src.choice(ranges)
+    how = src.weighted([(2, "lo"), (2, "hi"), (1, "lo+1"), (1, "hi-1"), (2, "page"), (3, "any")])
+    if how == "lo":
+        c = lo
+    elif how == "hi":
+        c = hi
+    elif how == "lo+1":
+        c = min(lo + 1, hi)
+    elif how == "hi-1":
+        c = max(hi - 1, lo)
+    elif how == "page":
+        c = src.int(lo, hi)
+        c = max(lo, min(hi, (c & ~0xFF) - src.int(0, 1)))      # ..FF / ..00 inside the range
+    else:
+        c = src.int(lo, hi)
+    while c in BOTH_WS_AND_NAME:
+        c += 1
+    return c
+
+
+def range_word(src):
+    """a word of 1..3 characters drawn from the whole alphabet of name characters (first: a name start character)"""
+    w = chr(range_char(src, START_RANGES))
+    for _ in range(src.int(0, 2)):
+        w += chr(range_char(src, START_RANGES if src.bool(0.6) else PART_RANGES))
+    return w
+
+
 def gen_names(src):
     """a set of bound names containing prefix families and operator-joined combinations"""
     words = src.sample(WORDS, 6)
+    if src.bool(0.3):
+        for _ in range(src.int(1, 2)):
+            w = range_word(src)
+            if w not in words:
+                words[src.int(0, 5)] = w
     w = words
     fam = []
     fam.append([w[0]])
@@ -608,6 +651,76 @@ def diagnose(case, got):
     return "C10/wrong-resolution"
 
 
+# ---------------------------------------------------------------------------------------------------------------
+# the alphabet of name characters: every code point of the grammar's ranges as a bound one-character name and inside a bound name
+# ---------------------------------------------------------------------------------------------------------------
+
+ALPHA_K = 64
+
+
+def alphabet_cases(step):
+    """batches of ALPHA_K code points; step 1 = every code point of the ranges, else every step-th plus both ends of every range and
+    of every 256-block"""
+    def pick(ranges):
+        for lo, hi in ranges:
+            for c in range(lo, hi + 1):
+                if c in BOTH_WS_AND_NAME:
+                    continue
+                if step == 1 or c in (lo, hi, lo + 1, hi - 1) or (c & 0xFF) in (0, 0xFF) or c % step == 0:
+                    yield c
+    for kind, ranges in (("start", START_RANGES), ("part", PART_RANGES + START_RANGES)):
+        batch = []
+        for c in pick(ranges):
+            batch.append(c)
+            if len(batch) == ALPHA_K:
+                yield {"kind": kind, "cps": batch}
+                batch = []
+        if batch:
+            yield {"kind": kind, "cps": batch}
+
+
+def alpha_names(case):
+    return [(chr(c) if case["kind"] == "start" else "n" + chr(c) + "m") for c in case["cps"]]
+
+
+def reqs_alpha(case):
+    names = alpha_names(case)
+    ops = ["+", "-", "*", "/"]
+    bindings = [[n, {"n": str(3 + 2 * i)}] for i, n in enumerate(names)]
+    items = []
+    for i, n in enumerate(names):
+        op = ops[i % 4]
+        sp = " " if i % 8 < 4 else ""
+        items.append("%s%s%s%s1" % (n, sp, op, sp))
+    return [{"op": "eval", "text": "[" + ", ".join(items) + "]", "scope": [bindings]}]
+
+
+def judge_alpha(ctx, case, resp):
+    r = resp[0]
+    names = alpha_names(case)
+    key = "%s:%x-%x" % (case["kind"], case["cps"][0], case["cps"][-1])
+    ctx.note(key=key, nontrivial=True, labels=["alphabet:" + case["kind"]],
+             sample={"kind": case["kind"], "first": "U+%04X" % case["cps"][0], "last": "U+%04X" % case["cps"][-1], "n": len(names)})
+    if "panic" in r or "died" in r or "timeout" in r:
+        return Fail("C10/crash@%s" % r.get("location", "?"), "alphabet %s -> %r" % (key, r))
+    want = []
+    for i in range(len(names)):
+        v = Decimal(3 + 2 * i)
+        want.append([v + 1, v - 1, v, v][i % 4])
+    if "values" not in r:
+        return Fail("C10/wrong-resolution", "bound names made of name characters (%s, code points %s) are rejected: %s" % (
+            case["kind"], " ".join("U+%04X" % c for c in case["cps"]), str(r.get("parse_err", r))[:300]))
+    got = val.from_wire(r["values"][0])
+    if isinstance(got, list) and len(got) == len(want):
+        bad = [(c, g, w) for c, g, w in zip(case["cps"], got, want) if not val.same(g, w)]
+        if not bad:
+            return None
+        c, g, w = bad[0]
+        return Fail("C10/wrong-resolution", "the bound name %r (U+%04X as a name %s character) followed by an operator: expected %s, actual %s (%d of %d in this batch)" % (
+            alpha_names({"kind": case["kind"], "cps": [c]})[0], c, case["kind"], val.show(w), val.show(g), len(bad), len(want)))
+    return Fail("C10/wrong-resolution", "alphabet %s: expected a list of %d numbers, actual %s" % (key, len(want), val.show(got)[:300]))
+
+
 def setup(ctx):
     ctx.rule = ("name sets with prefix families (a, a b, a b c), operator-joined combinations next to their parts (a, b, a-b) and disjoint "
                 "names over ASCII/Latin-1/Greek/Cyrillic/CJK words, each bound to a distinct prime; templates put names in every position "
@@ -617,9 +730,17 @@ def setup(ctx):
                 "is a prefix of another bound name; distinct by (text, bindings)")
     ctx.assumptions = ["names are bound through the public constructors (never through the lexer)"]
     ctx.p = ctx.register(Part("names", gen_case, reqs, judge))
+    ctx.p_alpha = ctx.register(Part("alphabet", None, reqs_alpha, judge_alpha))
 
 
 def run(ctx):
+    step = 1 if ctx.thorough() else 23
+    ctx.enumerate(ctx.p_alpha, alphabet_cases(step), batch=20,
+                  name="code points of the name start / name part ranges (grammar rules 28, 29) as a bound one-character name and inside a bound "
+                       "name, followed by + - * / with and without blanks: %s" % ("every code point" if step == 1 else "every 23rd + the ends of every range and 256-block"),
+                  exhaustive=(step == 1))
+    if ctx.stop():
+        return
     ctx.forall(ctx.p, ctx.scale(160000, 15000000))
 
 
